@@ -12,6 +12,8 @@ package feeds
 //@ func EndBlocker
 //@ modifies Store_feeds, Other
 //@ requires keeper.feedsParams(Store_feeds).CurrentFeedsUpdateInterval > 0
+//@ requires ext("LegacyNewDecFromStr#1", keeper.feedsParams(Store_feeds).PriceQuorum) == nil
+//@ ensures err == nil
 //@ requires keeper.wfTotals(Store_feeds)
 //@ requires keeper.feedsParams(Store_feeds).PowerStepThreshold > 0 && keeper.feedsParams(Store_feeds).MinInterval > 0 && keeper.feedsParams(Store_feeds).MaxInterval > 0
 //@ ensures ctx.BlockHeight() % old(keeper.feedsParams(Store_feeds)).CurrentFeedsUpdateInterval != 0 ==> Store_feeds[types.CurrentFeedsStoreKey] == old(Store_feeds)[types.CurrentFeedsStoreKey]
